@@ -359,16 +359,27 @@ ToDM(c) ==
 SqColName(col) == DM!ColName(col)
 ColMapSq(c, st) == LET K == NSpecies(c)  cols == DM!ColSeq(K) IN
                    [q \in 1..Len(cols) |-> <<DM!ColName(cols[q]), DM!ColName(MapCol(st.sigma, cols[q]))>>]
+\* every particle's phase exp(-i q.r) is multiplied by ONE common factor zeta^s per frame (translation:
+\* s = -n.t M/L; image shifts and re-wrapping: multiples of M; relabelling, swap, axis permutation: 0),
+\* so rho_a'(q') = zeta^s rho_a(q) for every species and S'_{sigma a, sigma b} = S_ab
+CommonPhase(c, st, dm, dm2, n, f) ==
+  Cardinality({(DM!PhaseClass(dm2, st.c.vecs[n], dm2.frames[f][st.pi[i]]) - DM!PhaseClass(dm, c.vecs[n], dm.frames[f][i])) % dm.M
+                 : i \in 1..NPart(c)}) = 1
 ModesEquivariant(c, st) ==
   (IsDiagonal(c.H) /\ ~st.rotated /\ ~st.dilated) =>
     LET dm == ToDM(c)  dm2 == ToDM(st.c)
         sg(a) == IF a = 0 THEN 0 ELSE st.sigma[a]
-    IN  /\ Len(dm2.sel.vecs) = Len(dm.sel.vecs)
+    IN  /\ Len(dm2.sel.vecs) = Len(dm.sel.vecs) /\ dm2.M = dm.M
         /\ \A n \in 1..Len(c.vecs) :
              /\ st.c.vecs[n] = PermVec(st.ax, c.vecs[n])
              /\ DM!NormKey(dm2, st.c.vecs[n]) = DM!NormKey(dm, c.vecs[n])
-             /\ \A a, b \in 0..NSpecies(c) :
-                  ((a = 0) <=> (b = 0)) => DM!W(dm2, st.c.vecs[n], sg(a), sg(b)) = DM!W(dm, c.vecs[n], a, b)
+             /\ \A f \in 1..NFrames(c) : CommonPhase(c, st, dm, dm2, n, f)
+        \* and, through the definitions of module DensityModes, for one generic vector: the integer
+        \* circular correlations W_ab (hence S_ab) are equal with the columns renamed
+        /\ LET n == 4
+               CT == DM!CountTable(dm, c.vecs[n])  CT2 == DM!CountTable(dm2, st.c.vecs[n]) IN
+           \A a, b \in 0..NSpecies(c) :
+             (((a = 0) <=> (b = 0)) /\ a <= b) => DM!WT(dm2, CT2, sg(a), sg(b)) = DM!WT(dm, CT, a, b)
 
 \* ---- neighbour sets (canonical lists with tie groups) ----------------------------------
 MapGroups(pi, gs) == [k \in 1..Len(gs) |-> {pi[j] : j \in gs[k]}]
@@ -420,7 +431,8 @@ ToFr(c, f) == [pos |-> c.frames[f], nl |-> c.nb[f], w |-> << >>]
 QlExactInvariant(c, st, l) ==
   (c.d = 3 /\ MM(st) = 1) =>
     \A i \in 1..NPart(c) :
-      Len(c.nb[1][i]) > 0 =>
+      \* (bonds with small integer components only: the exact rationals of module Boo3D stay below 2^31)
+      (Len(c.nb[1][i]) > 0 /\ \A k \in 1..Len(c.nb[1][i]) : Norm2(BondsOf(c, 1)[i][k]) <= 50) =>
         B3!AExact(st.c.H, st.c.ppp, ToFr(st.c, 1), l, st.pi[i], st.pi[i], 30) = B3!AExact(c.H, c.ppp, ToFr(c, 1), l, i, i, 30)
 
 \* ---- tetrahedral order: the four nearest, as a set -----------------------------------------
